@@ -1405,7 +1405,7 @@ pub fn gen_program(g: &mut Xo, inputs: &BTreeMap<String, InVal>, max_nodes: usiz
 /// Names that only differ where a careless representation stops looking: long names that
 /// agree on their first 15 / 16 / 23 / 32 / 64 bytes, one name a prefix of another, case and
 /// whitespace variants, composed vs decomposed Unicode, the empty name.
-pub const HOSTILE_NAMES: [&str; 18] = [
+pub const HOSTILE_NAMES: [&str; 22] = [
     // neighbours (2k, 2k+1) are the pair most easily confused with each other
     "previous_generation_best",
     "previous_generation_mean",
@@ -1425,6 +1425,10 @@ pub const HOSTILE_NAMES: [&str; 18] = [
     "a\u{308}",
     "",
     " ",
+    "rate",
+    "Rate",
+    "FLAG",
+    "flag",
 ];
 
 pub fn gen_inputs(g: &mut Xo) -> BTreeMap<String, InVal> {
